@@ -356,13 +356,17 @@ impl FormatString {
 }
 
 fn get_starting_point(file_info: &WalkEntry) -> &Path {
-    file_info
-        .path()
-        .ancestors()
-        .nth(file_info.depth())
-        // safe to unwrap: the file's depth should never be longer than its path
-        // (...right?).
-        .unwrap()
+    file_info.starting_point().unwrap_or_else(|| {
+        // An entry that was not produced by a walk: recover the starting point
+        // from the path (this loses trailing or repeated separators).
+        file_info
+            .path()
+            .ancestors()
+            .nth(file_info.depth())
+            // safe to unwrap: the file's depth should never be longer than its path
+            // (...right?).
+            .unwrap()
+    })
 }
 
 fn format_non_link_file_type(file_type: FileType) -> char {
